@@ -1,7 +1,9 @@
 (** C03 — State proofs are complete, sound and crash-free: the theorems.
     [H] is the hash of the 4-field node message (SHA-256 over its protobuf
-    encoding); [hashfn] / [len32] / [collision] / [injective4] are in
-    Proofs.v / ProofsTop.v, the model in Model.v, the guard in Spec.v. *)
+    encoding); [hashfn] / [len32] / [collision] / [injective4] / [heights_ok]
+    are in Proofs.v / ProofsTop.v, the model in Model.v.  The model is the verifier
+    as repaired by chain33 commit c3a108e (Proof.Verify rejects supplied nodes with
+    Height < 1; finding C03-leaf-inner-confusion). *)
 From Coq Require Import List ZArith NArith Bool.
 From C33 Require Import C01.Keys C01.Model C01.Spec C01.Store C01.Inv
                         C03.Model C03.Spec C03.Proofs C03.Ideal C03.ProofsTop C03.ProofsE2E.
@@ -11,7 +13,7 @@ Local Open Scope Z_scope.
 (** Completeness: what ConstructProof returns verifies, through both entry
     points, against the root of the tree, with the stored value. *)
 Theorem C03_complete : forall (H : hashfn), len32 H ->
-  forall pf t k v p,
+  forall pf t k v p, sized t ->
     t_construct H pf (Some t) k = Some (v, p) ->
     In (k, v) (elements t) /\
     pf_root p = root_hash H pf t /\
@@ -22,7 +24,7 @@ Print Assumptions C03_complete.
 
 (** ... and every key of an ordered tree gets one; an absent key gets none. *)
 Theorem C03_complete_present : forall (H : hashfn), len32 H ->
-  forall pf t k v, ordered t -> In (k, v) (elements t) ->
+  forall pf t k v, ordered t -> sized t -> In (k, v) (elements t) ->
     exists p, t_construct H pf (Some t) k = Some (v, p) /\
               verify_kv H (root_hash H pf t) k v (pf_inner p) = true.
 Proof. exact complete_present. Qed.
@@ -33,71 +35,65 @@ Theorem C03_absent_no_proof : forall (H : hashfn) pf t k,
 Proof. exact absent_no_proof. Qed.
 Print Assumptions C03_absent_no_proof.
 
-(** Soundness (guarded; for SHA-256 itself: either the pair is in the tree or
-    the proof exhibits a collision). *)
-Theorem C03_sound_partial : forall (H : hashfn), len32 H ->
-  forall t pf k v pi, sized t -> no_confusable (elements t) = true ->
+(** Soundness, for every sized tree and every supplied list of nodes (for
+    SHA-256 itself: either the pair is in the tree or the proof exhibits a
+    collision). *)
+Theorem C03_sound : forall (H : hashfn), len32 H ->
+  forall t pf k v pi, sized t ->
     verify_kv H (digest H pf t) k v pi = true ->
     In (k, v) (elements t) \/ collision H.
 Proof. exact sound. Qed.
-Print Assumptions C03_sound_partial.
+Print Assumptions C03_sound.
 
-Theorem C03_sound_struct_partial : forall (H : hashfn), len32 H ->
-  forall t pf p k v, sized t -> no_confusable (elements t) = true ->
+Theorem C03_sound_struct : forall (H : hashfn), len32 H ->
+  forall t pf p k v, sized t ->
     verify H p k v (digest H pf t) = true ->
     In (k, v) (elements t) \/ collision H.
 Proof. exact sound_struct. Qed.
-Print Assumptions C03_sound_struct_partial.
+Print Assumptions C03_sound_struct.
 
-Theorem C03_sound_injective_partial : forall (H : hashfn), len32 H -> injective4 H ->
-  forall pf t k v pi, sized t -> no_confusable (elements t) = true ->
+Theorem C03_sound_injective : forall (H : hashfn), len32 H -> injective4 H ->
+  forall pf t k v pi, sized t ->
     verify_kv H (root_hash H pf t) k v pi = true -> In (k, v) (elements t).
 Proof. exact sound_inj. Qed.
-Print Assumptions C03_sound_injective_partial.
+Print Assumptions C03_sound_injective.
 
-(** Unguarded soundness fails even for an injective hash: LeafNode and
-    InnerNode share one encoding (known finding 1). *)
-Definition C03_sound_full : Prop := sound_full.
-
-Theorem C03_sound_refuted : ~ C03_sound_full.
-Proof. exact sound_full_refuted. Qed.
-Print Assumptions C03_sound_refuted.
-
-Theorem C03_leaf_inner_confusion : forall (H : hashfn), len32 H ->
-  forall pf k v,
-    (forall k0, k0 <> [] -> (length k0 <= 32)%nat ->
-       verify_kv H (digest H pf (Leaf k0 (leaf_hash H k v))) k v [mk_pnode 0 1 k0 []] = true) /\
-    (forall v0, (length v0 <= 32)%nat ->
-       verify_kv H (digest H pf (Leaf (leaf_hash H k v) v0)) k v [mk_pnode 0 1 [] v0] = true).
-Proof. exact leaf_inner_confusion. Qed.
-Print Assumptions C03_leaf_inner_confusion.
-
-(** The repaired verifier (work/C03/fix.diff: reject supplied nodes of height 0;
-    the patch rejects every height < 1) is sound WITHOUT the guard, and honest
-    proofs still pass its added test. *)
-Theorem C03_repaired_sound : forall (H : hashfn), len32 H ->
-  forall t pf k v pi, sized t ->
-    heights_ok pi && verify_kv H (digest H pf t) k v pi = true ->
-    In (k, v) (elements t) \/ collision H.
-Proof. exact sound_repaired. Qed.
-Print Assumptions C03_repaired_sound.
-
-Theorem C03_repaired_complete : forall (H : hashfn) t, sized t -> forall pf k v lh pi,
+(** The test added by the repair costs nothing: every node of an honest proof
+    passes it (inner nodes of a sized tree have height >= 1) ... *)
+Theorem C03_honest_heights_ok : forall (H : hashfn) t, sized t -> forall pf k v lh pi,
   construct H pf t k = Some (v, lh, pi) -> heights_ok pi = true.
 Proof. exact construct_heights_ok. Qed.
-Print Assumptions C03_repaired_complete.
+Print Assumptions C03_honest_heights_ok.
+
+(** ... and a supplied node with height < 1, in any position, for any root,
+    is rejected; in particular both forgeries of the fixed finding (a node
+    {height 0, size 1} that makes a stored leaf hash like an inner node). *)
+Theorem C03_bad_height_rejected : forall (H : hashfn), len32 H ->
+  forall root k v pi,
+    existsb (fun n => pn_height n <? 1) pi = true -> verify_kv H root k v pi = false.
+Proof. exact bad_height_rejected. Qed.
+Print Assumptions C03_bad_height_rejected.
+
+Theorem C03_leaf_inner_confusion_rejected : forall (H : hashfn), len32 H ->
+  forall pf k v front back,
+    (forall k0, verify_kv H (digest H pf (Leaf k0 (leaf_hash H k v))) k v
+                  (front ++ mk_pnode 0 1 k0 [] :: back) = false) /\
+    (forall v0, verify_kv H (digest H pf (Leaf (leaf_hash H k v) v0)) k v
+                  (front ++ mk_pnode 0 1 [] v0 :: back) = false).
+Proof. exact confusion_rejected. Qed.
+Print Assumptions C03_leaf_inner_confusion_rejected.
 
 (** Another value fails: an accepted value is the one the tree holds. *)
-Theorem C03_sound_value_partial : forall (H : hashfn), len32 H ->
+Theorem C03_sound_value : forall (H : hashfn), len32 H ->
   forall t pf k v v' pi,
-    ordered t -> sized t -> no_confusable (elements t) = true ->
+    ordered t -> sized t ->
     snd (get t k) = Some v ->
     verify_kv H (digest H pf t) k v' pi = true ->
     v' = v \/ collision H.
 Proof. exact sound_value. Qed.
-Print Assumptions C03_sound_value_partial.
+Print Assumptions C03_sound_value.
 
-(** Another key fails: the proof produced for k accepts no other pair (no guard needed). *)
+(** Another key fails: the proof produced for k accepts no other pair. *)
 Theorem C03_proof_binds : forall (H : hashfn), len32 H ->
   forall pf t k v lh pi k' v',
     construct H pf t k = Some (v, lh, pi) ->
@@ -114,16 +110,17 @@ Proof. exact root_unique. Qed.
 Print Assumptions C03_root_unique.
 
 (** Verify is total on every list of records and decides exactly
-    "root = recomputed chain" (nothing else of the list matters). *)
+    "every height >= 1 and root = recomputed chain" (nothing else of the list matters). *)
 Theorem C03_verify_total : forall (H : hashfn), len32 H ->
   forall root k v pi,
-    verify_kv H root k v pi = beq root (chain H (leaf_hash H k v) pi).
+    verify_kv H root k v pi = heights_ok pi && beq root (chain H (leaf_hash H k v) pi).
 Proof. exact verify_kv_char. Qed.
 Print Assumptions C03_verify_total.
 
 Theorem C03_verify_struct_total : forall (H : hashfn) p k v root,
   verify H p k v root =
   beq (pf_root p) root && beq (leaf_hash H k v) (trim32 (pf_leaf p)) &&
+  heights_ok (pf_inner p) &&
   beq (pf_root p) (chain H (leaf_hash H k v) (pf_inner p)).
 Proof. exact verify_char. Qed.
 Print Assumptions C03_verify_struct_total.
@@ -138,7 +135,7 @@ Print Assumptions C03_root_of_symbolic.
 (** End to end with C01's store theorem: for every history of committed write
     batches [bs] and every committed version i seen from a later database j,
     every pair of the abstract state [state (firstn i bs)] has a proof that
-    verifies against the version's root, absent keys get no proof, and (guarded)
+    verifies against the version's root, absent keys get no proof, and
     whatever verifies against that root is a pair of the abstract state. *)
 Theorem C03_state_proofs : forall (H : hashfn), len32 H ->
   forall bs i j, (i <= j)%nat ->
@@ -150,8 +147,7 @@ Theorem C03_state_proofs : forall (H : hashfn), len32 H ->
          exists pi, get_kv_pair_proof H pf oi k = Some pi /\
                     verify_kv H (byte_root H ri) k v pi = true) /\
       (forall pf k, sget (state (firstn i bs)) k = None -> get_kv_pair_proof H pf oi k = None) /\
-      (no_confusable (state (firstn i bs)) = true ->
-       forall k v pi, verify_kv H (byte_root H ri) k v pi = true ->
+      (forall k v pi, verify_kv H (byte_root H ri) k v pi = true ->
          sget (state (firstn i bs)) k = Some v \/ collision H).
 Proof. exact state_proofs. Qed.
 Print Assumptions C03_state_proofs.
